@@ -522,7 +522,7 @@ class World(object):
         if conn is None:
             self.skipped += 1
             return
-        if conn.phase == "refused" and not self.cfg.get("rude"):
+        if conn.phase == "refused" and not (self.cfg.get("rude") or self.cfg.get("reconnect_refused")):
             # the broker closes after refusing [MQTT-3.2.2-5]; a second CONNECT on that transport is
             # generated only where the property under test is about it (C14)
             self.skipped += 1
@@ -739,7 +739,15 @@ class World(object):
             else:
                 cands = {"PUBACK": conn.b_q1, "PUBREC": conn.b_q2, "PUBCOMP": conn.b_rel,
                          "UNSUBACK": conn.b_unsub}[kind]
-            if sel == 6:       # the id of a request of ANOTHER kind that is outstanding right now
+            if sel == 7:       # an id of the same kind that is outstanding on the OTHER address of the factory
+                oc = self.cur.get(1 - a)
+                ol = []
+                if oc is not None and not oc.lost:
+                    ol = {"PUBACK": oc.b_q1, "PUBREC": oc.b_q2, "PUBCOMP": oc.b_rel, "SUBACK": list(oc.b_sub),
+                          "UNSUBACK": oc.b_unsub}[kind]
+                    ol = [i_ for i_ in ol if i_ not in cands]
+                i = ol[x % len(ol)] if ol else None
+            elif sel == 6:     # the id of a request of ANOTHER kind that is outstanding right now
                 others = []
                 for kk, lst in (("PUBACK", conn.b_q1), ("PUBREC", conn.b_q2), ("PUBCOMP", conn.b_rel),
                                 ("SUBACK", list(conn.b_sub)), ("UNSUBACK", conn.b_unsub)):
@@ -762,7 +770,7 @@ class World(object):
                     n = y % 9
                     codes = [[0, 1, 2, 0x80][((x * 7 + y) >> (2 * j)) & 3] for j in range(n)]
                 f["codes"] = codes
-            solicited = (sel not in (3, 4, 5, 6)) or (sel == 3 and i in cands)
+            solicited = (sel not in (3, 4, 5, 6, 7)) or (sel == 3 and i in cands)
             if solicited:
                 if kind == "SUBACK":
                     conn.b_sub.pop(i, None)
